@@ -28,6 +28,21 @@ Theorem c01_age_exact : forall x s, min_int64 <= s -> sat64 x > s -> x > s.
 Proof. exact sat64_gt_imp. Qed.
 Print Assumptions c01_age_exact.
 
+(* the taint time is stored on the node: the stamp escalator writes (the scan's second, printed in decimal) reads back
+   as exactly that second, for every second up to year 9999 — so after any restart the reaper sees the original time *)
+Theorem c01_stamp_roundtrip : forall t, 0 <= t <= max_taint_ts -> taint_time_of (print_dec t) = Some t.
+Proof.
+  intros t Ht. unfold taint_time_of. rewrite parse_print_roundtrip by (unfold max_taint_ts, min_int64, max_int64 in *; lia).
+  replace (max_taint_ts <? t) with false by (symmetry; apply Z.ltb_ge; lia). reflexivity.
+Qed.
+Print Assumptions c01_stamp_roundtrip.
+
+(* a taint value that does not read as a time (unparsable, or beyond year 9999 — the F7 repair) never makes a node
+   removable by the grace-period rule *)
+Theorem c01_unreadable_never_reaped : forall e o pods n, taint_time n = None -> reapable e o pods n = false.
+Proof. intros e o pods n H. unfold reapable. rewrite H. destruct (safe_from_deletion n); reflexivity. Qed.
+Print Assumptions c01_unreadable_never_reaped.
+
 (* non-vacuity: in the sample world the hard-expired busy node and the empty force-tainted node are removed; the
    cordoned, the annotated and the freshly tainted node are not *)
 Example c01_ex : removal_targets (r_calls (ex_scan ex_opts gstate0 4800))
